@@ -266,6 +266,18 @@ def coindexing(ctx, res, member, err, dids, IDPAIRS, rule):
     if dids.op == "ite":
         cond_d = dids.args[0]
     plain = [a for a in alts if not _index_sets(a)]
+    if not plain:
+        # always re-indexed ([base[i] for i in selector], base[mask]): the
+        # list that is re-indexed is what has to be the plain pair-end list
+        for a in alts:
+            pe_ = per_element(a)
+            if pe_ is not None and not pe_[3] and pe_[0].op == "sub" and \
+                    pe_[0].args[1] is T("elem", pe_[2], pe_[1]) and \
+                    not _index_sets(pe_[0].args[0]):
+                plain.append(pe_[0].args[0])
+            elif a.op == "sub" and _index_sets(a) and \
+                    not _index_sets(a.args[0]):
+                plain.append(a.args[0])
     ok = bool(plain)
     pd_ = per_element(plain[0]) if plain else None
     ok = ok and pd_ is not None and not pd_[3] and pd_[2] is IDPAIRS \
@@ -517,7 +529,16 @@ def _rpe_core(ctx, r):
                           False)
     for p in ("pose_relation", "delta", "delta_unit", "rel_delta_tol",
               "all_pairs", "pairs_from_reference"):
-        ok = b.get(p) is tm.param(p)
+        got = b.get(p)
+        if got is not None:
+            # a *given* value: `p is None` fall-backs do not apply (None is
+            # not a value of the option; 0 / 0.0 / False are)
+            pp = tm.param(p)
+            got = tm.select(got, lambda a, pp=pp: (a.args[0] == "IsNot")
+                            if a.op == "cmp" and a.args[0] in ("Is", "IsNot")
+                            and a.args[1] is pp and a.args[2] is tm.NONE
+                            else None)
+        ok = got is tm.param(p)
         ctx.ob("C02.7", ctor[0], ok,
                f"rpe(): RPE({p} <- {p})" if ok else
                f"rpe(): RPE() parameter `{p}` receives {fmt(b.get(p))} — "
